@@ -140,7 +140,7 @@ def make_form(rng, i):
             fn = rng.choice(["cities", "zones", "wards"]) + "." + ext
             cells = {"label": f"q {nm}"}
             if rng.random() < 0.4:
-                cells["parameters"] = rng.choice(["value=code label=nm", "value=v1", "label=l1", "randomize=true"])
+                cells["parameters"] = rng.choice(["value=code label=nm", "value=v1", "label=l1", "randomize=true", "Value=PlaceID LABEL=Name_EN", "VALUE=Code_1", "Label=NameFr value=id"])
             if rng.random() < 0.3:
                 cells["choice_filter"] = f"x != 'cf.{nm}'"
             rows.append(Row("q", f"{st} {fn}", nm, cells, meta={"file": fn, "select": st}))
